@@ -18,6 +18,7 @@ type Obligation struct {
 	Fn     string
 	Kind   string
 	Prefix int    // number of commands of FnCtx.cmds that precede the goal
+	PrefixBefore int // canary2: prefix before the call
 	Goal   string // must hold; the query asserts its negation
 	Src    string
 	Ctx    *FnCtx
@@ -94,6 +95,8 @@ type FnCtx struct {
 	errGlobals   []string
 	lemmaVCs     []lemmaVC
 	modTab       map[string]*modEntry
+	assumingPost bool
+	inGuardedDefer bool
 	specErrors    []string
 	callbackCalls []string
 	externUsed    map[string]bool
@@ -1434,6 +1437,8 @@ func (tr *FnCtx) next(st *State, x *ssa.Next) *Val {
 	tr.assume(implies(okc, and(sel(dom, k), not(sel(seen, k)))))
 	tr.assume(implies(not(okc), fmt.Sprintf("(forall ((kk Int)) (! (=> (select %s kk) (select %s kk)) :pattern ((select %s kk))))", dom, seen, dom)))
 	tr.set(st, c, ite(okc, store(seen, k, "true"), seen))
+	tr.assume(implies(okc, eq("(card "+store(seen, k, "true")+")", "(+ (card "+seen+") 1)")))
+	tr.assume("(>= (card " + seen + ") 0)")
 	kv := &Val{T: tup.At(1).Type(), A: []string{k}}
 	var vv *Val
 	if _, isInvalid := tup.At(2).Type().(*types.Basic); isInvalid && tup.At(2).Type() == types.Typ[types.Invalid] {
@@ -1465,7 +1470,9 @@ func (tr *FnCtx) runDefers(st *State, b *ssa.BasicBlock) {
 		saved := tr.guard
 		st2 := st.clone()
 		tr.guard = and(saved, g)
+		tr.inGuardedDefer = true // the conjunction may be unsatisfiable on this path: no vacuity canary here
 		tr.call(st2, d.instr.Common(), d.instr, "defer")
+		tr.inGuardedDefer = false
 		tr.guard = saved
 		m := tr.mergeStates([]string{g, "true"}, []*State{st2, st})
 		st.Comps = m.Comps
